@@ -387,7 +387,7 @@ def _add_exdate_to_rrule(rrule_str: str, exdate_str: str) -> str:
 
 
 def _convert_timestamps_to_datetime(
-    start_ts: int, end_ts: int, is_all_day: bool
+    start_ts: int, end_ts: int, is_all_day: bool, calendar_tz: ZoneInfo | None = None
 ) -> tuple[datetime | date, datetime | date]:
     """Convert UTC timestamps to datetime/date objects for Google Calendar.
 
@@ -395,13 +395,18 @@ def _convert_timestamps_to_datetime(
         start_ts: Start timestamp (UTC)
         end_ts: End timestamp (UTC)
         is_all_day: Whether the event is all-day
+        calendar_tz: Calendar's timezone, in which all-day dates are taken
+            (None = UTC)
 
     Returns:
         Tuple of (start_datetime_or_date, end_datetime_or_date)
     """
     if is_all_day:
-        start_dt = _timestamp_to_datetime(start_ts).date()
-        end_dt = _timestamp_to_datetime(end_ts).date()
+        # Google interprets all-day dates in the calendar's timezone, so the date
+        # of a timestamp is its local date there, not its UTC date
+        tz = calendar_tz if calendar_tz is not None else timezone.utc
+        start_dt = datetime.fromtimestamp(start_ts, tz=tz).date()
+        end_dt = datetime.fromtimestamp(end_ts, tz=tz).date()
     else:
         start_dt = _timestamp_to_datetime(start_ts)
         end_dt = _timestamp_to_datetime(end_ts)
@@ -538,7 +543,9 @@ def _prepare_event_for_add(
         is_all_day = _infer_is_all_day(start, end, calendar_tz)
 
     # Convert timestamps to datetime/date
-    start_dt, end_dt = _convert_timestamps_to_datetime(start, end, is_all_day)
+    start_dt, end_dt = _convert_timestamps_to_datetime(
+        start, end, is_all_day, calendar_tz
+    )
 
     return _PreparedEvent(
         event=event,
@@ -900,8 +907,10 @@ class Calendar(MutableTimeline[Event]):
         # Convert start timestamp to datetime/date
         # For recurring events, use the pattern's tz so BYDAY is interpreted correctly
         if is_all_day:
-            series_start_dt = _timestamp_to_datetime(series_start_ts).date()
-            series_end_dt = _timestamp_to_datetime(series_end_ts).date()
+            # All-day dates are local dates in the calendar's timezone
+            series_start_dt, series_end_dt = _convert_timestamps_to_datetime(
+                series_start_ts, series_end_ts, True, self._calendar_timezone
+            )
         else:
             # Convert to pattern's timezone, not UTC
             series_start_dt = datetime.fromtimestamp(series_start_ts, tz=pattern.zone)
